@@ -12,6 +12,9 @@
 (*   CheckEp(e, rc)    checkActive + the manager's reaction for ONE endpoint                       *)
 (*   CheckAll(rc)      one whole pass of checkStatus (CheckEp for every endpoint, registry order)  *)
 (*   Advance(d)        d seconds pass                                                              *)
+(*   Refused(c, e, k)  SelectAdapterProxy + AdapterProxy.Send on an endpoint that does not listen:    *)
+(*                     the request cannot be sent (dial refused), the call fails at once              *)
+(*   SetUp(e, b)       environment: the server of endpoint e stops listening / listens again          *)
 (*                                                                                                 *)
 (* Time.  The code compares `now - t >= threshold` only, so the record keeps AGES (now - t), each  *)
 (* saturating at the one threshold it is compared with (absolute timestamps and 1-second steps     *)
@@ -34,8 +37,10 @@ CONSTANTS N,        \* number of endpoints returned by the registry; endpoint i 
                     \* separate goroutine); FALSE: it runs between calls only (what the replay driver does)
           KeepAlive,   \* TRUE: client keep-alive is configured (keep-alive-interval = KeepInterval s; the default is off):
                        \* checkStatus first sends a one-way tars_ping on every adapter whose last ping is that old
-          PingNeutral  \* FALSE: as coded, a ping that could be SENT is booked as a sent and successful call
+          PingNeutral, \* FALSE: as coded, a ping that could be SENT is booked as a sent and successful call
                        \* (sendAdd, successAdd); TRUE: the candidate repair, a sent ping leaves the health record alone
+          Faults       \* TRUE: endpoints may stop listening and come back (SetUp): one more way for a call to fail --
+                       \* the request cannot even be sent (connection refused), doInvoke's `adp.Send` error branch
 
 Eps == 1..N
 
@@ -53,8 +58,9 @@ VARIABLES h,        \* [Eps -> health record]
           probeQ,   \* checkAdapter: queue of endpoints admitted for one probe call
           listed,   \* checkAdapterList: endpoints currently in probeQ
           infl,     \* [Calls -> in-flight call or NoCall]
-          g         \* ghosts, [Eps -> [since, run, runAge, admitAge]]
-vars == <<h, created, active, probeQ, listed, infl, g>>
+          g,        \* ghosts, [Eps -> [since, run, runAge, admitAge]]
+          up        \* environment, [Eps -> BOOLEAN]: the endpoint's server is listening (a connection can be made)
+vars == <<h, created, active, probeQ, listed, infl, g, up>>
 
 Min(a, b) == IF a < b THEN a ELSE b
 NoCall == [ep |-> 0, probe |-> FALSE]
@@ -75,6 +81,7 @@ Init == /\ h = [e \in Eps |-> H0]
         /\ listed = {}
         /\ infl = [c \in Calls |-> NoCall]
         /\ g = [e \in Eps |-> G0]
+        /\ up = [e \in Eps |-> TRUE]
 
 ----
 (* SelectAdapterProxy: a queued probe candidate first, then the strategy over the endpoints in     *)
@@ -86,13 +93,34 @@ Cands == IF IsProbe THEN {Head(probeQ)} ELSE IF active # {} THEN active ELSE Eps
 Select(c, e, k) ==
   /\ infl[c] = NoCall
   /\ e \in Cands
+  /\ up[e]
   /\ k \in Kinds
   /\ infl' = [infl EXCEPT ![c] = [ep |-> e, probe |-> IsProbe]]
   /\ probeQ' = IF IsProbe THEN Tail(probeQ) ELSE probeQ
   /\ listed' = IF IsProbe THEN listed \ {e} ELSE listed
   /\ created' = created \cup {e}
   /\ h' = [h EXCEPT ![e].send = @ + 1]                      \* sendAdd in AdapterProxy.Send
-  /\ UNCHANGED <<active, g>>
+  /\ UNCHANGED <<active, g, up>>
+
+(* A failed call on a health record (failAdd) and on the ghosts.                                   *)
+FailRec(r) == [r EXCEPT !.lastFail = Min(FailN, @ + 1), !.fail = @ + 1]
+FailGhost(x) == [x EXCEPT !.since = Min(OverN, @ + 1), !.run = Min(FailN, @ + 1), !.runAge = IF x.run = 0 THEN 0 ELSE @]
+
+(* The same selection on an endpoint whose server does not listen: AdapterProxy.Send counts the    *)
+(* request (sendAdd), the transport cannot connect, doInvoke books the failure (failAdd) and       *)
+(* returns the error: Select and a failing CallDone in one step, no call is ever in flight.  A      *)
+(* refused probe consumes its admission like any probe and leaves the endpoint blocked.            *)
+Refused(c, e, k) ==
+  /\ infl[c] = NoCall
+  /\ e \in Cands
+  /\ ~up[e]
+  /\ k \in Kinds
+  /\ probeQ' = IF IsProbe THEN Tail(probeQ) ELSE probeQ
+  /\ listed' = IF IsProbe THEN listed \ {e} ELSE listed
+  /\ created' = created \cup {e}
+  /\ h' = [h EXCEPT ![e] = FailRec([h[e] EXCEPT !.send = @ + 1])]
+  /\ g' = [g EXCEPT ![e] = FailGhost(g[e])]
+  /\ UNCHANGED <<active, infl, up>>
 
 (* doInvoke after the send: a reply is successAdd (and, for a probe, reset + addAliveEp); a        *)
 (* timeout / cancelled context / send error is failAdd.                                            *)
@@ -101,7 +129,7 @@ CallDone(c, ok) ==
   /\ LET e  == infl[c].ep
          re == infl[c].probe /\ ok
          r1 == IF ok THEN [h[e] EXCEPT !.aSucc = 0, !.lastFail = 0]
-                     ELSE [h[e] EXCEPT !.lastFail = Min(FailN, @ + 1), !.fail = @ + 1]
+                     ELSE FailRec(h[e])
          r2 == IF re THEN [r1 EXCEPT !.send = 0, !.fail = 0, !.lastFail = 0, !.aBlock = 0, !.aCheck = 0, !.aKeep = 0, !.status = TRUE]
                      ELSE r1
      IN /\ h' = [h EXCEPT ![e] = r2]
@@ -111,7 +139,7 @@ CallDone(c, ok) ==
                    !.run    = IF ok THEN 0 ELSE Min(FailN, @ + 1),
                    !.runAge = IF ok \/ g[e].run = 0 THEN 0 ELSE @]]
   /\ infl' = [infl EXCEPT ![c] = NoCall]
-  /\ UNCHANGED <<created, probeQ, listed>>
+  /\ UNCHANGED <<created, probeQ, listed, up>>
 
 ----
 (* AdapterProxy.checkActive on a record; rc is what ReConnect would return.                        *)
@@ -129,9 +157,12 @@ CheckOne(r, rc) ==
        ELSE [rec |-> r, first |-> FALSE, need |-> FALSE]
 
 (* AdapterProxy.doKeepAlive, called by checkStatus before checkActive when keep-alive is configured: a one-way    *)
-(* ping, at most one per KeepInterval.  The scripted servers keep listening, so the ping can always be sent.      *)
-Ping(r) ==
-  IF ~KeepAlive \/ r.aKeep < KeepInterval THEN r
+(* ping, at most one per KeepInterval.  A ping that cannot be sent (u = FALSE: the server does not listen) is     *)
+(* booked as a sent and failed request, before and after the repair.                                              *)
+PingDue(r) == KeepAlive /\ r.aKeep >= KeepInterval
+Ping(r, u) ==
+  IF ~PingDue(r) THEN r
+  ELSE IF ~u THEN FailRec([r EXCEPT !.aKeep = 0, !.send = @ + 1])
   ELSE IF PingNeutral THEN [r EXCEPT !.aKeep = 0]
   ELSE [r EXCEPT !.aKeep = 0, !.send = @ + 1, !.aSucc = 0, !.lastFail = 0]
 
@@ -141,16 +172,17 @@ Mgr == [h |-> h, active |-> active, probeQ |-> probeQ, listed |-> listed, g |-> 
 
 StepEp(m, e, rc) ==
   IF e \notin created THEN m
-  ELSE LET c     == CheckOne(Ping(m.h[e]), rc)
+  ELSE LET c     == CheckOne(Ping(m.h[e], up[e]), rc)
            admit == c.need /\ e \notin m.listed
+           g1    == IF PingDue(m.h[e]) /\ ~up[e] THEN [m.g EXCEPT ![e] = FailGhost(@)] ELSE m.g   \* a ping that cannot be sent is a failed call
        IN [h      |-> [m.h EXCEPT ![e] = c.rec],
            active |-> IF c.first THEN m.active \ {e} ELSE m.active,
            probeQ |-> IF admit THEN Append(m.probeQ, e) ELSE m.probeQ,
            listed |-> IF admit THEN m.listed \cup {e} ELSE m.listed,
-           g      |-> IF admit THEN [m.g EXCEPT ![e].admitAge = 0] ELSE m.g]
+           g      |-> IF admit THEN [g1 EXCEPT ![e].admitAge = 0] ELSE g1]
 
 SetMgr(m) == /\ h' = m.h /\ active' = m.active /\ probeQ' = m.probeQ /\ listed' = m.listed /\ g' = m.g
-             /\ UNCHANGED <<created, infl>>
+             /\ UNCHANGED <<created, infl, up>>
 
 Idle == \A c \in Calls : infl[c] = NoCall
 CheckEp(e, rc) == e \in created /\ (Overlap \/ Idle) /\ SetMgr(StepEp(Mgr, e, rc))
@@ -168,10 +200,20 @@ Advance(d) ==
                                        !.aKeep  = IF KeepAlive THEN Sat(@ + d, KeepInterval) ELSE 0]]
   /\ g' = [e \in Eps |-> [g[e] EXCEPT !.runAge   = IF g[e].run = 0 THEN 0 ELSE Sat(@ + d, FailInterval),
                                        !.admitAge = Sat(@ + d, TryInterval)]]
-  /\ UNCHANGED <<created, active, probeQ, listed, infl>>
+  /\ UNCHANGED <<created, active, probeQ, listed, infl, up>>
+
+(* The environment: the server of endpoint e stops listening (its connections are closed, the client notices) or  *)
+(* listens again.  Between calls only: a call in flight on a server that goes away simply never gets its reply.   *)
+SetUp(e, b) ==
+  /\ Faults /\ Idle
+  /\ up[e] # b
+  /\ up' = [up EXCEPT ![e] = b]
+  /\ UNCHANGED <<h, created, active, probeQ, listed, infl, g>>
 
 Next == \/ \E c \in Calls, e \in Eps, k \in Kinds : Select(c, e, k)
+        \/ \E c \in Calls, e \in Eps, k \in Kinds : Refused(c, e, k)
         \/ \E c \in Calls, ok \in BOOLEAN : CallDone(c, ok)
+        \/ \E e \in Eps, b \in BOOLEAN : SetUp(e, b)
         \/ \E e \in Eps, rc \in Reconn : CheckEp(e, rc)
         \/ \E d \in Steps : Advance(d)
 Spec == Init /\ [][Next]_vars
@@ -187,6 +229,7 @@ TypeOK ==
   /\ created \subseteq Eps /\ active \subseteq Eps /\ listed \subseteq Eps
   /\ probeQ \in Seq(Eps)
   /\ \A c \in Calls : infl[c] = NoCall \/ (infl[c].ep \in Eps /\ infl[c].probe \in BOOLEAN)
+  /\ up \in [Eps -> BOOLEAN]
 RotationIsHealthy == \A e \in Eps : (e \in active) <=> h[e].status      \* blocked <=> out of rotation
 ProbeQueueSingle == /\ Range(probeQ) = listed                            \* an admitted endpoint is queued once
                     /\ Len(probeQ) = Cardinality(listed)
@@ -204,9 +247,11 @@ TakenOut(e) == e \in active /\ e \notin active'
 Returned(e) == e \notin active /\ e \in active'
 
 \* "an endpoint with no failed calls is never taken out of rotation"
-NeverOutWithoutFailure == [][\A e \in Eps : TakenOut(e) => g[e].since >= 1]_vars
+\* (g' and not g: with keep-alive configured the status check that takes the endpoint out may itself add a failure -- its
+\*  ping could not be sent; without keep-alive a status check leaves `since` alone and g' = g here)
+NeverOutWithoutFailure == [][\A e \in Eps : TakenOut(e) => g'[e].since >= 1]_vars
 \* "none is taken out with fewer than two failures since it was last (re)instated"
-NeverOutBelowTwoFailures == [][\A e \in Eps : TakenOut(e) => g[e].since >= OverN]_vars
+NeverOutBelowTwoFailures == [][\A e \in Eps : TakenOut(e) => g'[e].since >= OverN]_vars
 \* "an endpoint whose calls all fail (at least 5 in a row, for at least 5 seconds) is out of normal rotation
 \*  after the next status check as long as another endpoint is active"
 AllFailing(e) == g[e].run >= FailN /\ g[e].runAge >= FailInterval
@@ -227,12 +272,21 @@ ProbeDecides ==
        (CallDone(c, ok) /\ infl[c].probe /\ ~h[infl[c].ep].status) =>
           IF ok THEN infl[c].ep \in active' /\ h'[infl[c].ep].status
                 ELSE infl[c].ep \notin active' /\ ~h'[infl[c].ep].status]_vars
+\* ... and a probe that cannot even be sent is a probe that did not succeed
+RefusedProbeStaysBlocked ==
+  [][\A c \in Calls : \A e \in Eps : \A k \in Kinds :
+       (Refused(c, e, k) /\ IsProbe /\ ~h[e].status) => (e \notin active' /\ ~h'[e].status)]_vars
+\* a call that cannot be sent is a failed call of its endpoint (the ghosts the clauses above are written over see it),
+\* and it is attempted: the endpoint's send counter moves although nothing can be in flight
+RefusedIsAFailedCall ==
+  [][\A c \in Calls : \A e \in Eps : \A k \in Kinds :
+       Refused(c, e, k) => (g'[e].since >= 1 /\ g'[e].run >= 1 /\ h'[e].send = h[e].send + 1 /\ h'[e].fail = h[e].fail + 1)]_vars
 OnlyProbeReturns ==
   [][\A e \in Eps : Returned(e) => \E c \in Calls : infl[c].ep = e /\ infl[c].probe /\ CallDone(c, TRUE)]_vars
 (* The same clauses as a value: which of them the step (unprimed -> primed) breaks.  Gen_ / Plan_Failover record it   *)
 (* with every step, so that a behaviour the real code FOLLOWS and TLC marks is a reproduced violation.            *)
 StepBreaks(isCheck) ==
-     {"endpoint-left-rotation-with-fewer-than-two-failures" : e \in {x \in Eps : TakenOut(x) /\ g[x].since < OverN}}
+     {"endpoint-left-rotation-with-fewer-than-two-failures" : e \in {x \in Eps : TakenOut(x) /\ g'[x].since < OverN}}
   \cup {"all-failing-endpoint-still-in-rotation-after-status-check" :
            e \in {x \in Eps : isCheck /\ x \in created /\ AllFailing(x) /\ x \in active /\ active \ {x} # {} /\ x \in active'}}
   \cup {"probe-admitted-less-than-30s-after-the-previous" : e \in {x \in Eps : x \notin listed /\ x \in listed' /\ g[x].admitAge < TryInterval}}
